@@ -5,6 +5,8 @@ import IoraModel.Lemmas.EngineSteps
 import IoraModel.Lemmas.EngineStale
 import IoraModel.Lemmas.EngineFlags
 import IoraModel.Lemmas.CloseFanout
+import IoraModel.Lemmas.CloseDeliver
+import IoraModel.Lemmas.CloseDeliverCompose
 /-!
 # C02 — Every session gets exactly one close; nothing before announce or after close
 
@@ -298,5 +300,93 @@ theorem T5_observers_registration_order (g : Bool) (ops : List Op) (sid : Fanout
 open Iora.Fanout in
 example : (closeFan 7 (runOps { hasGlobal := true } [.act (.observe 7), .act (.observe 7), .act (.setData 7 3 true), .act (.unobserve 1)])).2 =
     [.global 7, .observer 7 2, .cleanup 7 3] := by decide
+
+/-! ## nothing after the close, at the Transport level (T3 for the callbacks the APPLICATION sees) -/
+
+/-- Tie (translator): step 6 of the Transport close handler and the entry of `Transport::setReadMode` are, statement by statement,
+what `Model/CloseDeliver.lean` mirrors; in particular the close handler erases the session's read mode unconditionally (seeded
+change C02-c makes it conditional on an empty buffer) and `setReadMode` returns (true, having done nothing) for a closed tombstone before it touches `readModes`
+(repair FC02a) - the two facts `T3_no_delivery_after_close_transport` needs (`Deliver.Sound`). -/
+theorem delivery_skeletons_conform :
+    Iora.Gen.CloseSites.closeStep6 = closeStep6 ∧ Iora.Gen.CloseSites.setReadModeEntry = setReadModeEntry ∧
+    Iora.Gen.CloseSites.closeErasesModeAlways = true ∧ Iora.Gen.CloseSites.setReadModeRefusesTombstone = true := by decide
+
+/-- the model instance the driver runs is the sound one: its two variant flags are the Gen facts -/
+theorem delivery_variant_sound (c : Iora.Deliver.Cfg)
+    (h1 : c.eraseAlways = Iora.Gen.CloseSites.closeErasesModeAlways) (h2 : c.tombGuard = Iora.Gen.CloseSites.setReadModeRefusesTombstone) :
+    Iora.Deliver.Sound c := by
+  rw [Iora.Deliver.Sound, h1, h2]; exact ⟨delivery_skeletons_conform.2.2.1, delivery_skeletons_conform.2.2.2⟩
+
+open Iora.Deliver in
+/-- **T3 (Transport)** Nothing is delivered after the close, at the level of the callbacks the application registers with
+`Transport`: for every configuration of the sound variant and EVERY sequential history of engine callbacks (accept, connect, data,
+close - for any ids, any payloads) and application calls (`setReadMode` to any mode, `receiveSync` of any length, on any id, open,
+closed or unknown) in which the ENGINE honours its contract `EngineContract` (no accept / connect / data for an id after its
+close - what `T3_nothing_after_close` proves of both engines), no accept, connect or data callback for an id follows the run of
+its close handler (`closeH sid`: the global close callback and the observers of T5 fire there).  In particular the bytes a Sync /
+Disabled session had buffered when it closed are never flushed through the data callback by a later `setReadMode(sid, Async)`,
+whatever mode switches precede it - they stay readable through `receiveSync` (C03 T2/T7). -/
+theorem T3_no_delivery_after_close_transport (cfg : Deliver.Cfg) (hs : Sound cfg) (ops : List Deliver.Op) (hc : EngineContract ops)
+    (pre : List Deliver.Out) (sid : Deliver.Sid) (post : List Deliver.Out)
+    (hsplit : Deliver.run (Deliver.init cfg) ops = pre ++ Deliver.Out.closeH sid :: post) :
+    ∀ e ∈ post, ¬ delFor sid e :=
+  traceOk_split (run_traceOk ops (Deliver.init cfg) hs (valid_init_of_contract cfg ops hc) (inv_init cfg)) pre sid post hsplit
+
+open Iora.Deliver in
+/-- **T3 (engine ∘ Transport)** The hypothesis of `T3_no_delivery_after_close_transport` is a THEOREM of the engine model: take any
+engine (TCP or UDP), any configuration and any history `is` of it, and any sequential Transport history `ops` whose
+engine-originated ops are - in order, with arbitrary payloads and arbitrary `setReadMode` / `receiveSync` calls in between - the
+callbacks of that engine history (`opShape` / `outShape` project both sides to (close?, id)).  Then no accept / connect / data
+callback of the application follows the close handler of its id.  No hypothesis about the engine is left. -/
+theorem T3_no_delivery_after_close_end_to_end (e : Engine) (cfg : Lifecycle.Cfg) (is : List In)
+    (dcfg : Deliver.Cfg) (hs : Sound dcfg) (ops : List Deliver.Op)
+    (hproj : ops.filterMap opShape = (after e cfg is).tr.filterMap outShape)
+    (pre : List Deliver.Out) (sid : Deliver.Sid) (post : List Deliver.Out)
+    (hsplit : Deliver.run (Deliver.init dcfg) ops = pre ++ Deliver.Out.closeH sid :: post) :
+    ∀ ev ∈ post, ¬ delFor sid ev :=
+  T3_no_delivery_after_close_transport dcfg hs ops
+    (contract_of_engine_trace (after e cfg is).tr (reachable e cfg is).inv.ord.closed ops hproj) pre sid post hsplit
+
+open Iora.Deliver in
+/-- the projection hypothesis is satisfiable by a non-trivial pair: the F30 engine history (two sessions, both closed by the drain)
+under a Transport history with mode switches and receives in between -/
+example : ([.engConnect 1, .setMode 1 .sync, .engClose 1, .setMode 1 .async, .recv 1 4, .engClose 2] : List Deliver.Op).filterMap opShape =
+    (after .tcp {} f30History).tr.filterMap outShape := by decide
+open Iora.Deliver in
+/-- ... and with payload: connect completion and data in one event, any bytes on the Transport side -/
+example : ([.setMode 1 .disabled, .engConnect 1, .engData 1 [7, 8]] : List Deliver.Op).filterMap opShape =
+    (after .tcp {} [.apiConnect .none false, .ioSwap, .ioCmd [.again, .ok, .again], .ioSession 1 true true false [.ok, .ok, .ok, .data, .again]]).tr.filterMap outShape := by decide
+
+open Iora.Deliver in
+/-- state form: after every such history an id whose close handler has run either has no read mode and a closed tombstone (which
+`setReadMode` leaves alone), or nothing buffered at all - there is nothing a flush could deliver. -/
+theorem T3_closed_ids_cannot_flush (cfg : Deliver.Cfg) (hs : Sound cfg) (ops : List Deliver.Op) (hc : EngineContract ops) (sid : Deliver.Sid)
+    (hclosed : Op.engClose sid ∈ ops) :
+    let t := runState (Deliver.init cfg) ops
+    (t.modes sid = none ∧ tomb t sid = true) ∨ bufData t sid = [] :=
+  runState_safe ops (Deliver.init cfg) hs (valid_init_of_contract cfg ops hc) (inv_init cfg) sid
+    ((runState_closedH ops (Deliver.init cfg) sid).mpr (Or.inr hclosed))
+
+open Iora.Deliver in
+/-- the engine contract is needed: data the ENGINE reports after its own close goes straight to the data callback (Async) -/
+example : Deliver.run (Deliver.init {}) [.engClose 5, .engData 5 [1]] = [.closeH 5, .dataCb 5 [1]] := by decide
+open Iora.Deliver in
+/-- FC02a, the unrepaired variant (`tombGuard := false`): Sync, two bytes arrive, close, then Sync and Async again - the tail is
+flushed through the data callback after the close -/
+example : Deliver.run (Deliver.init { tombGuard := false }) [.setMode 5 .sync, .engData 5 [170, 187], .engClose 5, .setMode 5 .sync, .setMode 5 .async] =
+    [.modeRet 5 true, .closeH 5, .modeRet 5 true, .dataCb 5 [170, 187], .modeRet 5 true] := by decide
+open Iora.Deliver in
+/-- ... the same history on the repaired code: both switches are vacuous (true, nothing registered, nothing flushed), the tail stays for
+receiveSync, then PeerClosed -/
+example : Deliver.run (Deliver.init {}) [.setMode 5 .sync, .engData 5 [170, 187], .engClose 5, .setMode 5 .sync, .setMode 5 .async, .recv 5 8, .recv 5 8] =
+    [.modeRet 5 true, .closeH 5, .modeRet 5 true, .modeRet 5 true, .recvRet 5 (.bytes [170, 187]), .recvRet 5 .peerClosed] := by decide
+open Iora.Deliver in
+/-- seeded change C02-c (`eraseAlways := false`): the mode survives the close of an undrained session and ONE switch to Async flushes -/
+example : Deliver.run (Deliver.init { eraseAlways := false, tombGuard := false }) [.setMode 5 .sync, .engData 5 [1], .engClose 5, .setMode 5 .async] =
+    [.modeRet 5 true, .closeH 5, .dataCb 5 [1], .modeRet 5 true] := by decide
+open Iora.Deliver in
+/-- the hypothesis is satisfiable by a non-trivial history (data before the close, calls after it) -/
+example : EngineContract [.engAccept 5, .setMode 5 .sync, .engData 5 [1], .engClose 5, .setMode 5 .async, .recv 5 1] :=
+  contract_of_check _ (by decide)
 
 end Iora.C02
